@@ -7,6 +7,9 @@ From CV Require Import Frame.FrameHist.
 From CV Require Import Frame.FrameReuse.
 From CV Require Import Frame.FrameReuseProofs.
 From CV Require Import Frame.FrameReuseEq.
+From CV Require Import Frame.FrameProofs.
+From CV Require Import Frame.FrameStream.
+From CV Require Import Frame.FrameHistory.
 Open Scope Z_scope.
 
 (* EVERY byte stream (arbitrary values: not even bytes_ok is assumed, no framing assumption), every
@@ -60,3 +63,63 @@ Theorem C14_reuse_content_transparent : forall n st hc bc, ust_ok st ->
           (snd (decode_n (mkD (u_rd st) hc bc false (u_max st)) n)).
 Proof. exact reuse_content_transparent. Qed.
 Print Assumptions C14_reuse_content_transparent.
+
+(* ---------------------------------------------------------------- whole Decode histories (plain path) *)
+
+(* message.go's Decoder keeps no error state.  After io.EOF or a failed read the stream is exhausted
+   and every later Decode returns io.EOF; after any OTHER error (too many segments, too large, size
+   overflow) it goes on parsing at the byte after what it consumed: C14_decode_not_sticky.
+
+   The stream is the frames of [msgs] (each acceptable to the decoder) followed by ANY bytes [rest];
+   any chunking, any final reader error, reuse on/off, any capacities; |msgs| + 1 + n calls, every n:
+   (1) the first |msgs| outcomes are the messages, in order;
+   (2) outcome number |msgs| is io.EOF  iff  rest is empty and the reader ends with io.EOF;
+   (3) if it is io.EOF or a read error, all n later outcomes are io.EOF;
+   (4) it IS io.EOF or a read error when rest is empty or a non-empty strict prefix of an acceptable frame;
+   (5) it is the message m when rest starts with the canonical frame of an acceptable m.
+   PARTIAL w.r.t. "exactly the whole frames of the longest prefix that parses as frames": when rest is none
+   of these (its header breaks a limit, or it is a frame whose header PADDING word is not zero, which the
+   decoder accepts without looking: decode_history_example) only "not io.EOF" and (3) are proved; the
+   converse "a returned message means the stream holds one of its wire frames" is not proved. *)
+Theorem C14_decode_history_characterised_partial : forall msgs rest cs fin hc bc ru mx n,
+  max_ok mx -> Forall (frame_ok mx) msgs -> concat cs = concat (map frame msgs) ++ rest ->
+  let outs := outcomes (snd (decode_n (mkD (mkReader cs fin) hc bc ru mx) (length msgs + S n))) in
+  let nxt := nth (length msgs) outs DPanic in
+  firstn (length msgs) outs = map DMsg msgs /\
+  (nxt = DEof <-> rest = [] /\ fin = EOF) /\
+  (end_out nxt = true -> skipn (S (length msgs)) outs = repeat DEof n) /\
+  ((rest = [] \/ exists m tail, frame_ok mx m /\ frame m = rest ++ tail /\ rest <> [] /\ tail <> []) ->
+   end_out nxt = true) /\
+  (forall m t, frame_ok mx m -> rest = frame m ++ t -> nxt = DMsg m).
+Proof. exact decode_history_characterised_partial. Qed.
+Print Assumptions C14_decode_history_characterised_partial.
+
+(* ANY stream (no framing assumption), any chunking, any final reader error, any decoder state, every
+   k and n: if Decode number k returned io.EOF or a read error, the n calls after it return io.EOF *)
+Theorem C14_decode_end_sticky : forall k n st, max_ok (d_max st) ->
+  let outs := outcomes (snd (decode_n st (S k + n))) in
+  end_out (nth k outs DPanic) = true -> skipn (S k) outs = repeat DEof n.
+Proof. exact decode_end_sticky. Qed.
+Print Assumptions C14_decode_end_sticky.
+
+(* ANY stream ...: Decode number k returns io.EOF only if the k calls before it consumed the whole
+   stream and the reader ends with io.EOF ("io.EOF only at a boundary", without any framing assumption) *)
+Theorem C14_decode_eof_only_exhausted : forall k st,
+  nth k (outcomes (snd (decode_n st (S k)))) DPanic = DEof -> exhausted (d_rd (fst (decode_n st k))).
+Proof. exact decode_eof_only_exhausted. Qed.
+Print Assumptions C14_decode_eof_only_exhausted.
+
+(* one Decode on ANY stream and state: MaxMessageSize unchanged; io.EOF only from an exhausted stream;
+   after io.EOF or a read error the stream is exhausted *)
+Theorem C14_decode1_end : forall st st' out log, decode1 st = (st', out, log) ->
+  d_max st' = d_max st /\ (out = DEof -> exhausted (d_rd st)) /\ (end_out out = true -> exhausted (d_rd st')).
+Proof. exact decode1_end. Qed.
+Print Assumptions C14_decode1_end.
+
+(* not sticky after other errors: 513 segments announced -> refused; the next Decode returns a message *)
+Theorem C14_decode_not_sticky :
+  let s := [0; 2; 0; 0; 0; 0; 0; 0] ++ frame [[1; 2; 3; 4; 5; 6; 7; 8]] in
+  outcomes (snd (decode_n (d_init (mkReader [s] EOF) 0) 4))
+  = [DErr ETooManySegs; DMsg [[1; 2; 3; 4; 5; 6; 7; 8]]; DEof; DEof].
+Proof. exact decode_not_sticky. Qed.
+Print Assumptions C14_decode_not_sticky.
